@@ -220,16 +220,10 @@ func verifCopyInto(dst, src reflect.Value, keep map[uintptr]bool) {
 	}
 }
 
-// VerifRootFromAuth evaluates an authentication path with the library's own
-// validateAuthPath and returns the root it leads to.
-func VerifRootFromAuth(hashFunction HashFunction, leaf []uint8, leafIdx uint32, authPath []uint8, h uint32, pubSeed []uint8) []uint8 {
-	n := WOTSParamN
-	root := make([]uint8, n)
-	var nodeAddr [8]uint32
-	nodeAddr[3] = 2
-	validateAuthPath(hashFunction, root, leaf, leafIdx, authPath, n, h, pubSeed, &nodeAddr)
-	return root
-}
+// VerifRootFromAuth, when set (build tag verifauth, file verif_auth.go),
+// evaluates an authentication path with the library's own validateAuthPath and
+// returns the root it leads to. Optional for the same reason as VerifWOTSCheck.
+var VerifRootFromAuth func(hashFunction HashFunction, leaf []uint8, leafIdx uint32, authPath []uint8, h uint32, pubSeed []uint8) []uint8
 
 // VerifWOTSCheck, when set (build tag verifwots, file verif_wots.go), tells
 // whether the WOTS part of a signature leads to the real leaf of its index. It
